@@ -24,7 +24,7 @@ def collect(ctx, props, plans, design=(), report_deaths=False, me=1):
                               replay_obj={"me": me, "steps": smlib.strip(behs[r["beh"]][: r["step"] + 1])})
             elif r.get("kind") == "mismatch":
                 mismatches.append({"source": label, "op": r["op"], "args": r.get("args"), "diff": r.get("diff"),
-                                   "steps": smlib.strip(behs[r["beh"]][: r["step"] + 1])})
+                                   "steps": smlib.strip(behs[r["beh"]][: r["step"] + 1]), "_full": behs[r["beh"]], "_step": r["step"]})
         for d in run.deaths[nd:]:
             if report_deaths:
                 ctx.violation("NoPanic", "StateMachine:" + d["op"], norm_panic(d["panic"]),
@@ -32,7 +32,7 @@ def collect(ctx, props, plans, design=(), report_deaths=False, me=1):
                               replay_obj={"me": me, "steps": smlib.strip(d["steps"])})
             elif not d["expected"]:
                 mismatches.append({"source": label, "op": d["op"], "args": d["args"], "diff": ["unexpected process death: " + d["panic"]],
-                                   "steps": smlib.strip(d["steps"])})
+                                   "steps": smlib.strip(d["steps"]), "_full": d["steps"], "_step": d["step"]})
 
     for d in design:
         consts = {"MaxSteps": d["steps"], "AllowCrash": "TRUE" if d.get("crash") else "FALSE", "Universe": d.get("universe", "Small"),
@@ -80,6 +80,25 @@ def collect(ctx, props, plans, design=(), report_deaths=False, me=1):
         ctx.log("replaying %d simulated behaviours (<= %d steps, universe %r) on the real state machine" % (len(behs), p["steps"], p.get("universe", "")))
         do_replay(behs, "sim")
         all_behs += behs[:1]
+    # a divergence must reproduce when the same behaviour is replayed again (timing must never decide a verdict)
+    if mismatches:
+        confirmed, flaky = [], 0
+        for m in mismatches:
+            base = len(run.records)
+            nd = len(run.deaths)
+            run.replay([m["_full"]])
+            again = [r for r in run.records[base:] if r.get("kind") == "mismatch" and r["step"] == m["_step"]]
+            died = len(run.deaths) > nd
+            if again or died or m["diff"] and "unexpected process death" in m["diff"][0]:
+                confirmed.append(m)
+            else:
+                flaky += 1
+        for m in mismatches:
+            m.pop("_full", None)
+            m.pop("_step", None)
+        if flaky:
+            ctx.log("%d divergences did not reproduce on a second replay and are dropped" % flaky)
+        mismatches[:] = confirmed
     inconcl = run.by_kind("inconclusive")
     for b in all_behs[:3]:
         ctx.sample({"state_machine_behaviour": smlib.strip(b)})
